@@ -137,6 +137,12 @@ Theorem C17_oracle_sound_ttl_choice_partial : forall prefix ettl k ttls,
 Proof. exact c17_oracle_sound_ttl_choice. Qed.
 Print Assumptions C17_oracle_sound_ttl_choice_partial.
 
+(* ... and for the TTL arguments of every Create / Update / Delete, whatever Lease the request carries *)
+Theorem C17_oracle_sound_ttl_write : forall prefix ettl op lease k ttls,
+  c17_check (KTtlWrite prefix ettl op lease k ttls) = true -> c17_oracle (KTtlWrite prefix ettl op lease k ttls) = None.
+Proof. exact c17_oracle_sound_ttl_write. Qed.
+Print Assumptions C17_oracle_sound_ttl_write.
+
 (* ... the engine-TTL cases, dump clause: on a history the model reproduces (every dump equals the model's store
    at that time; wall times non-decreasing) every record missing from a dump belongs to an Event key and, on
    Badger, its latest write is at least ttl old - the oracle reports nothing on Badger and nothing but the
